@@ -371,8 +371,78 @@ func c03Scenario(c *fw.Ctx, s int) {
 	}
 }
 
+// c03RealTime: no forced sweeps. Silent subscribers are watched for 11 s of real time: the broker's
+// own 1 s ticker and its 3 s deadlines must retransmit at least twice (deadline passes at ~3 s and
+// ~6-7.5 s). The deliveries are started at different sub-second phases so that deadlines fall on both
+// sides of the second boundaries the timeout buckets are rounded to.
+func c03RealTime(c *fw.Ctx, idx int) {
+	fw.LogCase("C03 real-time scenario %d", idx)
+	cl := kit.NewCluster(kit.WorkDir("c03rt"))
+	defer cl.Close()
+	n, err := cl.AddNode(kit.NodeOpts{ID: 1})
+	if err != nil {
+		c.Inconclusive("cannot start node: " + err.Error())
+		return
+	}
+	pub, err := n.MustConnect(kit.ConnectOpts{ClientID: "rt-pub", KeepAlive: 600, Clean: true})
+	if err != nil {
+		c.Inconclusive("connect: " + err.Error())
+		return
+	}
+	defer pub.Close()
+	nS := 4
+	subs := make([]*kit.Client, nS)
+	start := make([]time.Time, nS)
+	for i := range subs {
+		cc, err := n.MustConnect(kit.ConnectOpts{ClientID: fmt.Sprintf("rt-sub%d", i), KeepAlive: 600, Clean: true})
+		if err != nil {
+			c.Inconclusive("connect: " + err.Error())
+			return
+		}
+		defer cc.Close()
+		cc.SetAutoAck(false)
+		if err := cc.Sub1(fmt.Sprintf("c03rt/%d", i), 1+i%2); err != nil {
+			c.Inconclusive("subscribe: " + err.Error())
+			return
+		}
+		subs[i] = cc
+	}
+	for i := range subs {
+		time.Sleep(time.Duration(230+40*idx) * time.Millisecond) // different phases within the second
+		if acked, _ := pub.Publish(fmt.Sprintf("c03rt/%d", i), []byte(fmt.Sprintf("rt-%d-%d", idx, i)), 1, false, kit.DefaultWait); !acked {
+			c.Inconclusive("publish not acknowledged")
+			return
+		}
+		start[i] = time.Now()
+	}
+	for i, cc := range subs {
+		tag := fmt.Sprintf("rt-%d-%d", idx, i)
+		// wait until 11 s after this delivery started, or until the third copy is there
+		deadline := start[i].Add(11 * time.Second)
+		copies := 0
+		for {
+			copies, _ = c03Count(cc, kit.PUBLISH, tag, 0)
+			if copies >= 3 || time.Now().After(deadline) {
+				break
+			}
+			time.Sleep(50 * time.Millisecond)
+		}
+		c.Observe("realtime_deliveries_watched", 1)
+		c.Observe("retransmissions_seen", copies-1)
+		if cc.Closed() {
+			c.Violation("session-dropped", fmt.Sprintf("real-time scenario %d: silent subscriber %d was disconnected", idx, i), nil)
+			continue
+		}
+		if copies < 3 {
+			c.Violation(fmt.Sprintf("not-retransmitted-by-ticker:qos%d", 1+i%2), fmt.Sprintf("real-time scenario %d: the unacknowledged QoS %d delivery %s was written %d time(s) in 11 s; with 3 s deadlines and a 1 s sweep at least 3 copies are due", idx, 1+i%2, tag, copies),
+				map[string]interface{}{"scenario": idx, "copies": copies, "subscriber": i})
+		}
+	}
+	c.Case(fmt.Sprintf("realtime|%d", idx), true)
+}
+
 func runC03(c *fw.Ctx) {
-	c.Rule = "seeded scenarios on a broker node: 1-3 subscriber sessions (subscription QoS 1 or 2, automatic acknowledgement off) with 1-4 in-flight deliveries each; per delivery a response script (acknowledge in round 0-3 or never; QoS 2: PUBCOMP 0-2 rounds after PUBREC; optionally a wrong-type or unknown-identifier reply in some round), per session an optional disconnect round; each of 5 rounds = wrong replies, due replies, session ends, then a FORCED expiry sweep (ack.Queue.Expire with a time past every armed deadline, called by the harness) and a PINGREQ/PINGRESP barrier per session. Trace specification per delivery: >= 1+k PUBLISH copies after k sweeps unacknowledged, all with the first copy's identifier; after PUBREC >= 1 PUBREL per sweep and no further PUBLISH; after completion nothing more and the identifier is in the pool's free list (hook H1); after a session ends its identifiers are freed by the next sweep. distinct = script; non-trivial = every scenario (>=1 unacknowledged sweep)"
+	c.Rule = "seeded scenarios on a broker node: 1-3 subscriber sessions (subscription QoS 1 or 2, automatic acknowledgement off) with 1-4 in-flight deliveries each; per delivery a response script (acknowledge in round 0-3 or never; QoS 2: PUBCOMP 0-2 rounds after PUBREC; optionally a wrong-type or unknown-identifier reply in some round), per session an optional disconnect round; each of 5 rounds = wrong replies, due replies, session ends, then a FORCED expiry sweep (ack.Queue.Expire with a time past every armed deadline, called by the harness) and a PINGREQ/PINGRESP barrier per session. Trace specification per delivery: >= 1+k PUBLISH copies after k sweeps unacknowledged, all with the first copy's identifier; after PUBREC >= 1 PUBREL per sweep and no further PUBLISH; after completion nothing more and the identifier is in the pool's free list (hook H1); after a session ends its identifiers are freed by the next sweep. Plus real-time scenarios without forced sweeps: silent subscribers are watched for 11 s and must see >=3 copies produced by the broker's own ticker, with deliveries started at different sub-second phases. distinct = script; non-trivial = every scenario (>=1 unacknowledged sweep)"
 	c.Assume("lower bounds only: the writer's own 1 s ticker may add copies")
 	c.Assume("wrong replies are sent with identifiers +20000 (unknown) or with a packet type the exchange does not wait for")
 	n := c.Pick(150, 1500)
@@ -386,6 +456,10 @@ func runC03(c *fw.Ctx) {
 			defer func() { <-sem }()
 			c03Scenario(c, s)
 		}(s)
+	}
+	for i := 0; i < c.Pick(3, 12); i++ {
+		wg.Add(1)
+		go func(i int) { defer wg.Done(); c03RealTime(c, i) }(i)
 	}
 	wg.Wait()
 	c.Floor("retransmissions_seen", 20)
